@@ -14,6 +14,7 @@ import math
 from fractions import Fraction as Fr
 
 from ..srcmodel import AnalysisError
+from ..stages import estimates
 from ..algebra import Poly, Z8
 from .. import ndarr
 from ..ndarr import Arr, InterpRaise
@@ -49,7 +50,7 @@ def run_one(rep, P, cls, method, n, order, gen_kind, rule_id='R-E2E', dim=None, 
     try:
         FV.value_kind = 'c' if complex_valued else 'f'
         obj, x = P.build(cls, method, order, n=n, step=step, dim=dim)
-        (der, h, shape), fxi = I.getattr(obj, '_derivative_nonzero_order')(x, (), {})
+        (der, h, shape), fxi = estimates(I, obj, x)
     except InterpRaise as exc:
         rep.violation(rule_id, construct, where, {'raises': exc.exc_name, 'message': exc.msg[:120]},
                       'a valid configuration does not raise', label, key='e2e-raises %s' % method)
